@@ -92,6 +92,51 @@ def check_dispatch(ctx):
             ctx.ob(f"D1/{owner.name}.{name}/signature", False, where(mem),
                    "dispatch routine does not take (expr, *args, **kwargs)")
             continue
+        # the judge: the routine interpreted on synthetic hierarchies
+        from .. import dispatch
+        wit, n_cases = dispatch.judge(
+            model.inlined(fn) if False else fn,
+            cached=owner.name == "CachedMapper", skip_own=name == "rec_fallback",
+            module_tree=owner.module.tree, class_node=owner.node)
+        ctx.ob(f"D0/{owner.name}.{name}/dispatch-semantics", not wit, where(mem),
+               f"{owner.name}.{name} interpreted on {n_cases} (hierarchy, handler "
+               "subset, extra arguments) cases: own handler, else nearest "
+               "ancestor's in MRO order, else the unsupported hook; foreign "
+               "objects to map_foreign; extras unchanged" +
+               ("; a second request is served from the table" if
+                owner.name == "CachedMapper" else "") if not wit else
+               f"{owner.name}.{name} does not dispatch as the property says: " +
+               "; ".join(w[:220] for w in wit[:3]) +
+               (f" (and {len(wit) - 3} more)" if len(wit) > 3 else ""),
+               {"cases": n_cases})
+        ctx.floor(f"{owner.name}.{name} dispatch cases", n_cases, 60)
+        mark = len(ctx.obs)
+        try:
+            _structural_dispatch(ctx, model, owner, name, fn, mem)
+        except AnalysisError:
+            if wit:
+                raise
+        if not wit:
+            ctx.withdraw_failures_since(
+                mark, "decided by interpretation on synthetic hierarchies")
+    # rec = __call__ aliases
+    for ckey in (f"{M}:Mapper", f"{M}:CachedMapper"):
+        c = model.cls(ckey)
+        raw = c.members.get("rec")
+        ok = raw is not None and raw.kind == "alias" and isinstance(
+            raw.node, ast.Name) and raw.node.id == "__call__"
+        ctx.ob(f"D1/{c.name}.rec/alias", ok, c.loc(),
+               "rec is the class's own __call__" if ok else
+               f"{c.name}.rec is not an alias of {c.name}.__call__: recursion "
+               "bypasses this class's dispatch")
+
+
+def _structural_dispatch(ctx, model, owner, name, fn, mem):
+    """the fast structural reading of a dispatch routine (exits, MRO loop,
+    order); its negative verdicts stand only when the interpretive judge
+    agrees"""
+    if True:
+        sig = signature(fn)
         pss = summarize(fn, loop_mode="01")
         kinds_seen = set()
         for i, ps in enumerate(pss):
@@ -160,16 +205,6 @@ def check_dispatch(ctx):
             _check_mro_loop(ctx, owner, name, fn, mem)
         if name == "__call__":
             _check_order(ctx, owner, name, fn, mem, pss)
-    # rec = __call__ aliases
-    for ckey in (f"{M}:Mapper", f"{M}:CachedMapper"):
-        c = model.cls(ckey)
-        raw = c.members.get("rec")
-        ok = raw is not None and raw.kind == "alias" and isinstance(
-            raw.node, ast.Name) and raw.node.id == "__call__"
-        ctx.ob(f"D1/{c.name}.rec/alias", ok, c.loc(),
-               "rec is the class's own __call__" if ok else
-               f"{c.name}.rec is not an alias of {c.name}.__call__: recursion "
-               "bypasses this class's dispatch")
 
 
 def _find_call_node(ps, rv):
